@@ -185,7 +185,9 @@ def create_app(config: JsonObject | None = None,
                 app.config['DASH']['DEFAULT_ADMIN_PASSWORD'],
                 session=db.session)
         ContentType.populate_if_empty(db.session)
-        Token.prune_database(all_csrf=True, session=db.session)
+        # records of used CSRF tokens are kept until those tokens expire: a
+        # token must not become usable again because the server restarted
+        Token.prune_database(all_csrf=False, session=db.session)
         db.session.commit()
 
     app.register_blueprint(custom_tags)
